@@ -465,7 +465,7 @@ func (p *c12) Shrink(scAny any) []any {
 
 func (p *c12) Info() PropInfo {
 	return PropInfo{
-		Rule: "per message shape (8 fixed corner shapes: single part 7bit/8bit/base64 at top level, alternative, mixed>related>alternative, a sole file, S/MIME, no part; then generated shapes over 0..3 alternatives/embeds/attachments x QP/base64/8bit/7bit x file sources x optional S/MIME): the sink fails at EVERY byte offset of the output in four modes (S/MIME-signed shapes: every 6th offset with ECDSA, every 48th with RSA in the quick tier, every offset / every 12th in the thorough tier, seeded phase - signing costs up to 9 ms per render) (persistent or one-shot x short write or whole-write refusal), every producer fails at {before first byte, middle, after last byte} with seven error identities, fs.FS and file-system sources that cannot be opened any more at render time, ReadSeeker sources that read but cannot be rewound, plus 40 sampled producer+sink combinations; evaluations = renders; non-trivial = every shape; distinct = distinct shapes (token, output length)",
+		Rule: "per message shape (8 fixed corner shapes: single part 7bit/8bit/base64 at top level, alternative, mixed>related>alternative, a sole file, S/MIME, no part; then generated shapes over 0..3 alternatives/embeds/attachments x QP/base64/8bit/7bit x file sources x optional S/MIME): the sink (a pointer, a function adapter or a struct value holding a slice, by offset) fails at EVERY byte offset of the output in four modes (S/MIME-signed shapes: every 6th offset with ECDSA, every 48th with RSA in the quick tier, every offset / every 12th in the thorough tier, seeded phase - signing costs up to 9 ms per render) (persistent or one-shot x short write or whole-write refusal), every producer fails at {before first byte, middle, after last byte} with seven error identities, fs.FS and file-system sources that cannot be opened any more at render time, ReadSeeker sources that read but cannot be rewound, plus 40 sampled producer+sink combinations; evaluations = renders; non-trivial = every shape; distinct = distinct shapes (token, output length)",
 		Assumptions: []string{"a sink that returns n < len(p) without an error breaks the io.Writer contract and is not injected",
 			"'bytes the destination accepted' is the sum of the counts the sink returned"},
 		Real:        []string{"go-mail Msg.WriteTo, msgWriter, base64LineBreaker, S/MIME signing (internal/pkcs7)", "mime/multipart, mime/quotedprintable, encoding/base64"},
